@@ -8,12 +8,13 @@ import json, os, random, shutil, subprocess, tempfile
 from concurrent.futures import ThreadPoolExecutor
 from multiprocessing import Pool
 from . import common as C
-from . import asa
+from . import asa, ios
 
 DEV = os.path.join(C.SPECS, "dev")
 
 DIALECTS = {
     "asa": dict(mod=asa, model="ASA", gen="AsaGen", trace="AsaTrace"),
+    "ios": dict(mod=ios, model="IOS", gen="IosGen", trace="IosTrace", maps=("acls", "intfs")),
 }
 
 
